@@ -175,6 +175,20 @@ impl Check for C03 {
                 }
             }
         }
+        // many small point clouds in one file: thousands of elements and attributes in the XML section
+        for clouds in [12usize, 40, 150] {
+            let ops = (0..clouds)
+                .map(|k| {
+                    let mut proto: Vec<Rec> = ["cartesianX", "cartesianY", "cartesianZ"].iter().map(|nm| rec(nm, RType::Scaled { min: -1000, max: 1000, scale: F64(0.001), offset: F64(k as f64) })).collect();
+                    proto.push(rec("intensity", RType::Int { min: 0, max: 255 }));
+                    proto.push(rec("colorRed", RType::Int { min: 0, max: 255 }));
+                    proto.push(rec("colorGreen", RType::Int { min: 0, max: 255 }));
+                    proto.push(rec("colorBlue", RType::Int { min: 0, max: 255 }));
+                    Op::Cloud(prog::CloudSpec { guid: format!("{{cloud-{k}}}"), proto, n: 2 + (k % 3) as u32, seed: k as u64, nan_ok: true, meta: Default::default(), finalize: true, clear_limits: 0, rejects: vec![] })
+                })
+                .collect();
+            out.push(Case { scene: Program { guid: format!("{{many-clouds-{clouds}}}"), ops, end: prog::End::Finalize }, layout: Layout::default() });
+        }
         // voxel-like clouds: a few bits per point and a constant record, far more than 65535 points in one data packet
         // (one packet per 60000 stream bytes by default) and more than that still outstanding behind it
         for (n, widths) in [(100_000u32, [2u32, 2, 1]), (200_000, [1, 1, 1]), (450_000, [1, 2, 1])] {
